@@ -502,3 +502,9 @@ package swamp
 //@   before Beacon.SelectExpiredForPatchWithCap [room_excludes_matching_records_without_expiry] capPredicate != nil ==> calls("Beacon.CountMatching") == old(calls("Beacon.CountMatching")) + 1 && calledwith("Beacon.CountMatching", 0, s.beaconKey) && litof(lastarg("Beacon.CountMatching", 1)) == 1 && arg4 == capMax - lastret("Beacon.CountMatching")
 //@   before Beacon.SelectExpiredForPatchWithCap [no_cap_no_count] capPredicate == nil ==> arg4 == capMax
 //@   before swamp.applyPatchExpiredOne [records_are_patched_under_the_cap_mutex] capPredicate != nil ==> held(s.capMu)
+
+// New (used by hydra.createNewSwamp's contract): assumed to return an instance; the constructor body
+// (goroutine start-up, index construction) is not verified.
+//@ func New(n, closeAfterIdle, fss, eventCallback, infoCallback, closeCallback, meta) (s)
+//@   opaque
+//@   ensures s != nil
